@@ -87,7 +87,9 @@ example : (match checkedDoc (nodeText "label".toList "<b> & ]]> \r 😀".toList)
 
 /-! ## 3. the mixed channel: `insert_output_values` + `node(tag, …, toParseString=…)` -/
 
-/-- the guard of the modelled fragment: `replace_with_output` (instance() expressions) is not entered -/
+/-- the cell holds no instance() expression: its escaped text is short or does not contain `instance(`
+    (then `replace_with_output` is the identity: `Chan.replaceWithOutput_noInstance`).  Cells WITH such
+    expressions are inside the model too; what the code does with them is pinned by the witnesses of section 7. -/
 def NoInstanceExpr (text : Str) : Prop :=
   (9 < (escText text).length && isInfix "instance(".toList (escText text)) = false
 
@@ -102,8 +104,7 @@ theorem insert_no_ref (refs : List (Str × Str)) (s : Str) (h : hasDollarBrace s
       have := SubTo.text (SubTo.nil refs) (by simp) s h
       simp only [List.append_nil] at this
       exact this _ (by omega)
-    unfold NoInstanceExpr at hi
-    simp only [hd, if_false, hi, Bool.false_eq_true]
+    simp only [hd, if_false, replaceWithOutput_noInstance refs (escText s) hi, finishInsert]
     split <;> simp_all
 
 /-- … so the mixed channel is the plain text channel for such cells, and `text_channel` applies -/
@@ -182,8 +183,7 @@ theorem insert_refs (refs : List (Str × Str)) (c : Cell) (items : List (Str × 
     rw [heq] at hmem
     exact escText_no_lt _ hmem
   unfold insertOutputValues
-  unfold NoInstanceExpr at hi
-  simp only [hne, if_false, hi, Bool.false_eq_true, hbrace, if_true]
+  simp only [hne, if_false, replaceWithOutput_noInstance refs (escText c.text) hi, finishInsert, hbrace, if_true]
   rw [hsub']
   simp [hneq]
 
@@ -198,12 +198,13 @@ theorem mixed_channel (refs : List (Str × Str)) (tag : Str) (c : Cell) (items :
 
 /-- one reference (the instance the DESIGN plan asked for first), spelled out -/
 theorem mixed_one_ref (refs : List (Str × Str)) (tag a n b xp : Str) (htag : isName tag = true)
-    (ha : TextOk a) (hb : TextOk b) (hn : NameOk n) (hx : lookup n refs = some xp) (hv : ValOk (' ' :: xp ++ [' ']))
+    (ha : TextOk a) (hb : TextOk b) (hn : NameOk n) (hls : startsWith n lastSavedTag = false)
+    (hx : lookup n refs = some xp) (hv : ValOk (' ' :: xp ++ [' ']))
     (hi : NoInstanceExpr (a ++ refMarkup n ++ b)) :
     mixedChannel refs tag (a ++ refMarkup n ++ b) =
       .ok (.elem tag [] (chunk true (normEol a) ++ outputNode (' ' :: xp ++ [' ']) :: chunk true (normEol b))) := by
   have hc : CellOk refs ⟨a, [(n, b)]⟩ [(' ' :: xp ++ [' '], b)] :=
-    ⟨ha, ⟨hn, hb.1, trivial⟩, by simp [resolve, varRepl, hx], ⟨hv, hb.2, trivial⟩, by simp⟩
+    ⟨ha, ⟨hn, hb.1, trivial⟩, by simp [resolve, varReplName, hls, varRepl, hx], ⟨hv, hb.2, trivial⟩, by simp⟩
   have := mixed_channel refs tag ⟨a, [(n, b)]⟩ _ htag hc (by simpa [Cell.text, Cell.tailText] using hi)
   simpa [Cell.text, Cell.tailText, cellKids, itemsKids] using this
 
@@ -328,6 +329,150 @@ theorem shape_noninterference (refs : List (Str × Str)) (tag : Str) (c c' : Cel
   intro i h1 h2
   simp
 
+/-! ## 4b. the flattened-string form: the recovered string equals the cell up to the boundary spaces -/
+
+theorem flatKids_append (L1 L2 : List Node) : flatKids (L1 ++ L2) = flatKids L1 ++ flatKids L2 := by
+  induction L1 with
+  | nil => simp [flatKids]
+  | cons n r ih => cases n <;> simp [flatKids, ih]
+
+theorem flatKids_textIf (s : Str) : flatKids (textIfNonempty s) = s := by
+  cases s <;> simp [textIfNonempty, flatKids]
+
+theorem flatKids_chunk (b : Bool) (s : Str) : flatKids (chunk b s) = s := by
+  cases s <;> simp [chunk, flatKids]
+
+theorem flatKids_prepend (a : Str) (L : List Node) : flatKids (prepend a L) = a ++ flatKids L := by
+  cases a with
+  | nil => rfl
+  | cons c a =>
+    cases L with
+    | nil => simp [prepend, flatKids]
+    | cons n r => cases n <;> simp [prepend, flatKids]
+
+theorem flatKids_mergeText (L : List Node) : flatKids (mergeText L) = flatKids L := by
+  induction L with
+  | nil => simp [mergeText]
+  | cons n r ih =>
+    cases n with
+    | text b s => simp [mergeText_text, flatKids_prepend, ih, flatKids]
+    | elem t a ks => simp [mergeText_elem, flatKids, ih]
+
+theorem flatKids_normKids (L : List Node) : flatKids (normKids L) = flatKids L := by
+  induction L with
+  | nil => simp [normKids]
+  | cons n r ih => cases n <;> simp [normKids, normNode_text, normNode_elem, flatKids, ih]
+
+theorem normEol_noCR : ∀ (n : Nat) (s : Str), s.length ≤ n → (normEol s).all (fun c => c != '\r') = true
+  | _, [], _ => by simp [normEol]
+  | 0, _ :: _, hl => by simp at hl
+  | n + 1, c :: r, hl => by
+    by_cases h : c = '\r' ∧ ∃ r', r = '\n' :: r'
+    · obtain ⟨rfl, r', rfl⟩ := h
+      rw [normEol_cr_lf]
+      simp only [List.all_cons, Bool.and_eq_true]
+      exact ⟨by decide, normEol_noCR n r' (by simp at hl; omega)⟩
+    · rw [normEol_cons c r (by intro hc r' hr; exact h ⟨hc, r', hr⟩)]
+      simp only [List.all_cons, Bool.and_eq_true]
+      refine ⟨?_, normEol_noCR n r (by simp at hl; omega)⟩
+      split
+      · decide
+      · rename_i hne; simpa using hne
+
+theorem noCRKids_chunk (b : Bool) (s : Str) : noCRKids (chunk b (normEol s)) = true := by
+  simp only [chunk]
+  split
+  · simp [noCRKids]
+  · simp [noCRKids, noCR, normEol_noCR s.length s (Nat.le_refl _)]
+
+theorem noCRKids_items (b : Bool) : ∀ (items : List (Str × Str)), noCRKids (itemsKids b items) = true
+  | [] => by simp [itemsKids, noCRKids]
+  | (v, t) :: rest => by
+    simp [itemsKids, noCRKids, noCR, outputNode, noCRKids_append, noCRKids_chunk, noCRKids_items b rest]
+
+theorem normAttrsKids_chunk (b : Bool) (s : Str) : normAttrsKids (chunk b s) = chunk b s := by
+  cases s <;> simp [chunk, normAttrsKids, normAttrs]
+
+theorem normAttrsKids_append (L1 L2 : List Node) :
+    normAttrsKids (L1 ++ L2) = normAttrsKids L1 ++ normAttrsKids L2 := by
+  induction L1 with
+  | nil => simp [normAttrsKids]
+  | cons n r ih => simp [normAttrsKids, ih]
+
+theorem normAttrsKids_items (b : Bool) : ∀ (items : List (Str × Str)), ItemsOk items →
+    normAttrsKids (itemsKids b items) = itemsKids b items
+  | [], _ => by simp [itemsKids, normAttrsKids]
+  | (v, t) :: rest, hok => by
+    obtain ⟨hv, _, hrest⟩ := hok
+    simp [itemsKids, normAttrsKids, normAttrs, outputNode, normAttrList, normAttrVal_ok v hv.attrOk,
+      normAttrsKids_append, normAttrsKids_chunk, normAttrsKids_items b rest hrest]
+
+theorem withSpacesKids_chunk (b : Bool) (s : Str) : withSpacesKids (chunk b s) = chunk b s := by
+  cases s <;> simp [chunk, withSpacesKids, withSpaces]
+
+theorem withSpacesKids_append (L1 L2 : List Node) :
+    withSpacesKids (L1 ++ L2) = withSpacesKids L1 ++ withSpacesKids L2 := by
+  induction L1 with
+  | nil => simp [withSpacesKids]
+  | cons n r ih => simp [withSpacesKids, ih]
+
+theorem withSpacesKids_items (b : Bool) : ∀ (items : List (Str × Str)),
+    withSpacesKids (itemsKids b items) = itemsKids b items
+  | [] => by simp [itemsKids, withSpacesKids]
+  | (v, t) :: rest => by
+    simp [itemsKids, withSpacesKids, withSpaces, outputNode, withSpacesKids_append, withSpacesKids_chunk,
+      withSpacesKids_items b rest]
+
+theorem flatKids_items (b : Bool) : ∀ (items : List (Str × Str)), flatKids (itemsKids b items) = flatItems items
+  | [] => by simp [itemsKids, flatItems, flatKids]
+  | (v, t) :: rest => by
+    simp [itemsKids, flatItems, flatKids, outputNode, flatKids_append, flatKids_chunk, flatKids_items b rest]
+
+/-- **flattened form of `mixed_reader`**: written as one string (text as is, each `output` as `\x00 value \x00`) the
+    children an XML reader finds are the cell's own flattening `flatCell` — every literal chunk character for
+    character (line ends normalised), every reference's xpath in its place — surrounded by the boundary spaces of
+    `writexml` (`leadSp`/`trailSp`: at most one space each, present only for mixed content with more than one child) -/
+theorem mixed_flat (tag head : Str) (items : List (Str × Str)) (hok : ItemsOk items) :
+    ∃ ks, expectedLax (.elem tag [] (cellKids true head items)) = .elem tag [] ks ∧
+      flatKids ks =
+        (if (cellKids true head items).any isText then
+           leadSp (cellKids true head items) ++ flatCell head items ++ trailSp (cellKids true head items)
+         else flatCell head items) := by
+  have hK : normAttrsKids (cellKids true head items) = cellKids true head items := by
+    simp [cellKids, normAttrsKids_append, normAttrsKids_chunk, normAttrsKids_items true items hok]
+  have hW : withSpacesKids (cellKids true head items) = cellKids true head items := by
+    simp [cellKids, withSpacesKids_append, withSpacesKids_chunk, withSpacesKids_items]
+  have hF : flatKids (cellKids true head items) = flatCell head items := by
+    simp [cellKids, flatCell, flatKids_append, flatKids_chunk, flatKids_items]
+  have hna : normAttrs (.elem tag [] (cellKids true head items)) = .elem tag [] (cellKids true head items) := by
+    simp [normAttrs, normAttrList, hK]
+  have hcr : noCR (.elem tag [] (cellKids true head items)) = true := by
+    simp [noCR, cellKids, noCRKids_append, noCRKids_chunk, noCRKids_items]
+  rw [expectedLax_of_noCR _ hcr, hna, expected]
+  simp only [withSpaces, hW]
+  split
+  · rename_i hany
+    refine ⟨_, normNode_elem _ _ _, ?_⟩
+    simp [flatKids_mergeText, flatKids_normKids, flatKids_append, flatKids_textIf, hF]
+  · refine ⟨_, normNode_elem _ _ _, ?_⟩
+    simp [flatKids_mergeText, flatKids_normKids, hF]
+
+-- the boundary spaces are at most one space each
+example (K : List Node) : leadSp K = [] ∨ leadSp K = [' '] := by
+  unfold leadSp; split
+  · exact Or.inl rfl
+  · split
+    · exact Or.inl rfl
+    · split
+      · exact Or.inr rfl
+      · exact Or.inl rfl
+example (K : List Node) : trailSp K = [] ∨ trailSp K = [' '] := by
+  unfold trailSp; split
+  · exact Or.inl rfl
+  · split
+    · exact Or.inl rfl
+    · exact Or.inr rfl
+
 /-! ## 5. Tie to the current source: regenerated tables (re-checked on every run) -/
 
 /-- `utils.XML_TEXT_SUBS` of the working tree is exactly the table `escTextChar` implements … -/
@@ -396,6 +541,14 @@ theorem exCell_read :
         .elem "output".toList [("value".toList, " /data/g/b2 ".toList)] [],
         .text false " ".toList ]) := by decide +kernel
 
+-- `mixed_flat` at the adversarial cell: what the consumer reads, as one string
+example : ∃ ks, expectedLax (.elem "label".toList [] (cellKids true exCell.head exItems)) = .elem "label".toList [] ks ∧
+    flatKids ks = ' ' :: (flatCell exCell.head exItems ++ [' ']) := by
+  obtain ⟨ks, h1, h2⟩ := mixed_flat "label".toList exCell.head exItems exCell_ok.items
+  refine ⟨ks, h1, ?_⟩
+  rw [h2]
+  decide +kernel
+
 -- text / attribute channels on adversarial strings
 example : parseDoc (renderDoc false (nodeText "hint".toList "]]> <a b='c'>&#38;&unknown; \r x".toList)) =
     some (.elem "hint".toList [] [.text false "]]> <a b='c'>&#38;&unknown; \n x".toList]) :=
@@ -409,7 +562,7 @@ example : mixedChannel exRefs "label".toList "<output value=\"/data/a\"/> $ {a} 
 example : mixedChannel exRefs "label".toList "x < ${a} & y".toList =
     .ok (.elem "label".toList [] [.text true "x < ".toList, outputNode " /data/a ".toList, .text true " & y".toList]) :=
   mixed_one_ref exRefs _ "x < ".toList "a".toList " & y".toList "/data/a".toList (by decide) (by decide) (by decide)
-    (by decide) (by decide) (by decide) (by decide)
+    (by decide) (by decide) (by decide) (by decide) (by decide)
 
 -- the guards are needed.  In the mixed channel the re-parse comes before the character check: a control
 -- character next to a reference is an expat error inside `node()` (open finding F4-reparse-non-xml-char) …
@@ -417,13 +570,68 @@ example : (match mixedChannel exRefs "label".toList ['a', Char.ofNat 1, ' ', '$'
     | .reparseError => true | _ => false) = true := by decide +kernel
 -- … and a writer without the check would produce a document the reader rejects:
 example : parseDoc (renderDoc false (nodeText "label".toList ['a', Char.ofNat 1, 'b'])) = none := by decide +kernel
--- an unknown name is an error, an instance() expression is outside the modelled fragment:
+-- an unknown name is an error:
 example : (match mixedChannel exRefs "label".toList "x ${zz}".toList with | .pyxformError => true | _ => false) = true := by
   decide +kernel
-example : (match mixedChannel exRefs "label".toList "instance('l')/root/item[a = ${a}]/label".toList with
-    | .unsupported _ => true | _ => false) = true := by decide +kernel
--- a `last-saved#` reference is handled by the model (correspondence) but excluded by `NameOk`:
-example : ¬ NameOk "last-saved#a".toList := by decide
+-- `${last-saved#name}` is covered by the same theorem (the marker is resolved by `varReplName`):
+def exCellLS : Cell := ⟨"saved <b>: ".toList, [("last-saved#a".toList, " & now ".toList), ("a".toList, [])]⟩
+def exItemsLS : List (Str × Str) :=
+  [(" instance('__last-saved')/data/a ".toList, " & now ".toList), (" /data/a ".toList, [])]
+theorem exCellLS_ok : CellOk exRefs exCellLS exItemsLS :=
+  ⟨by decide, ⟨by decide, by decide, by decide, by decide, trivial⟩, by decide,
+   ⟨by decide, by decide, by decide, by decide, trivial⟩, by decide⟩
+example : mixedChannel exRefs "hint".toList exCellLS.text =
+    .ok (.elem "hint".toList [] (cellKids true exCellLS.head exItemsLS)) :=
+  mixed_channel exRefs _ exCellLS exItemsLS (by decide) exCellLS_ok (by decide +kernel)
+
+/-! ## 7. instance() expressions: what the code does, pinned on the model (the open findings as exact witnesses)
+
+`spec…` is what the property demands (the expression, as typed, is the value of one `output`; the text around it
+is text; further references are further outputs); the theorems state what the model of the code computes
+instead.  The same inputs are in the check's directed stream, where the implementation is compared. -/
+
+/-- the element of an `.ok` outcome -/
+def okNode : Outcome Node → Option Node
+  | .ok n => some n
+  | _ => none
+
+def outp (v : String) : Node := outputNode v.toList
+def txt (s : String) : Node := .text true s.toList
+
+/-- a well-behaved cell: expression with a reference in its predicate, text around it, a second reference -/
+theorem instance_expr_ok :
+    okNode (mixedChannel exRefs "label".toList "x instance('l')/root/item[name = ${a}]/label y ${b2}".toList) =
+      some (.elem "label".toList []
+        [txt "x ", outp "instance('l')/root/item[name =  /data/a ]/label", txt " y ", outp " /data/g/b2 "]) := by
+  decide +kernel
+
+/-- **F15**: ` and ${a}` after the path is swallowed into the output's value (demanded:
+    `[outp "instance('l')/root/item[name = 'c1']/label", txt " and ", outp " /data/a ", txt " tail"]`) -/
+theorem F15_witness :
+    okNode (mixedChannel exRefs "label".toList "instance('l')/root/item[name = 'c1']/label and ${a} tail".toList) =
+      some (.elem "label".toList []
+        [outp "instance('l')/root/item[name = 'c1']/label and  /data/a ", txt " tail"]) := by
+  decide +kernel
+
+/-- **F39**: the expression is escaped twice; the reader finds `&lt;` where `<` was typed -/
+theorem F39_witness :
+    okNode (mixedChannel exRefs "label".toList "x instance('l')/root/item[name < 3]/label y".toList) =
+      some (.elem "label".toList []
+        [txt "x ", outp "instance('l')/root/item[name &lt; 3]/label", txt " y"]) := by
+  decide +kernel
+
+/-- **F40**: a quote before the expression hides it from `find_boundaries`: no output at all -/
+theorem F40_witness :
+    okNode (mixedChannel exRefs "label".toList "it's instance('l')/root/item[name = 1]/label".toList) =
+      some (nodeText "label".toList "it's instance('l')/root/item[name = 1]/label".toList) := by
+  decide +kernel
+
+/-- the boundaries themselves, for the F15 input: ONE expression spanning up to the end of ` /data/a`'s
+    source `${a}` (positions in the escaped text) -/
+theorem F15_boundaries :
+    (Lexer.parseExpression "instance('l')/root/item[name = 'c1']/label and ${a} tail".toList).map
+      (fun r => findBoundaries r.1) = some [(0, 51)] := by
+  decide +kernel
 
 #print axioms mixed_channel
 #print axioms shape_noninterference
